@@ -5,7 +5,7 @@ Run as a subprocess by the runner (atheris.Fuzz() never returns):
 The semantic oracle is inside the target: the owning sub-check's body.  On a Violation the shrunk... (libFuzzer does not shrink
 structurally) failing case is written to <workdir>/violation.json and the process exits with status 3; the runner then
 re-shrinks nothing but reports the case as found (replayable with ./check <PID> --replay).  Statistics are flushed to
-<workdir>/stats.json every 200 evaluations because atexit handlers do not run under libFuzzer.
+<workdir>/stats.json every 50 evaluations because atexit handlers do not run under libFuzzer.
 Exit status: 0 = campaign finished, 3 = violation written, anything else = harness error.
 """
 import json
@@ -57,7 +57,7 @@ def main():
             os._exit(3)
         stats.record(cj, ctx)
         state["n"] += 1
-        if state["n"] % 200 == 0:
+        if state["n"] % 50 == 0:
             flush()
 
     t = settings(database=None, deadline=None, suppress_health_check=list(HealthCheck))(given(sc.strategy("quick"))(test))
